@@ -48,7 +48,7 @@ func init() {
 		Legs: func(tier string) []fw.Leg {
 			// watchdog only: the thorough children need ~10 CPU-minutes each and the
 			// machine may be shared
-			to := 20 * time.Minute
+			to := 45 * time.Minute
 			if tier == "thorough" {
 				to = 3 * time.Hour
 			}
